@@ -101,14 +101,38 @@ void Parser::maybeAmbiguateTypeReference(TypeReferenceSyntax*& tyRef)
 
     auto exprAsTyRef = tyRef->asExpressionAsTypeReference();
     auto parenExpr = exprAsTyRef->expr_->asParenthesizedExpression();
-    if (!parenExpr->expr_->asIdentifierName())
+    if (!parenExpr->expr_)
         return;
 
-    auto tydefName = makeNode<TypedefNameSyntax>();
-    tydefName->identTkIdx_ = parenExpr->expr_->asIdentifierName()->identTkIdx_;
-    auto tyName = makeNode<TypeNameSyntax>();
-    tyName->specs_ =  makeNode<SpecifierListSyntax>(tydefName);
-    tyName->decltor_ = makeNode<AbstractDeclaratorSyntax>();
+    TypeNameSyntax* tyName = nullptr;
+    if (parenExpr->expr_->asIdentifierName()) {
+        auto tydefName = makeNode<TypedefNameSyntax>();
+        tydefName->identTkIdx_ = parenExpr->expr_->asIdentifierName()->identTkIdx_;
+        tyName = makeNode<TypeNameSyntax>();
+        tyName->specs_ =  makeNode<SpecifierListSyntax>(tydefName);
+        tyName->decltor_ = makeNode<AbstractDeclaratorSyntax>();
+    }
+    else {
+        // The parenthesized tokens may be a typedef name with an array or
+        // function (abstract) declarator as well: `sizeof(T[2])'.
+        if (tree_->tokenAt(parenExpr->openParenTkIdx_ + 1).kind() != SyntaxKind::IdentifierToken)
+            return;
+        auto tkIdx = curTkIdx_;
+        bool parsed;
+        {
+            Backtracker BT(this);
+            curTkIdx_ = parenExpr->openParenTkIdx_ + 1;
+            parsed = parseTypeName(tyName)
+                        && curTkIdx_ == parenExpr->closeParenTkIdx_;
+            curTkIdx_ = tkIdx;
+        }
+        if (!(parsed
+                && tyName
+                && tyName->specs_
+                && tyName->specs_->value->kind() == SyntaxKind::TypedefName
+                && !tyName->specs_->next))
+            return;
+    }
     auto tyNameAsTyRef = makeNode<TypeNameAsTypeReferenceSyntax>();
     tyNameAsTyRef->openParenTkIdx_ = parenExpr->openParenTkIdx_;
     tyNameAsTyRef->typeName_ = tyName;
